@@ -149,6 +149,39 @@ class ClassRef:
 
 
 @dataclass(frozen=True)
+class GenV:
+    """A generator object that has not run yet: the generator function and its arguments.  Its
+    body is interpreted when a consumer asks for items (all of them, or only the first)."""
+    fn: object = field(compare=False)      # FuncInfo of the generator function
+    qual: str = ''
+    args: tuple = ()
+    kwargs: tuple = ()                     # ((name, value), ...)
+    self_obj: object = None
+    closure: object = None                 # Closure for nested generator functions
+
+
+def is_generator_function(fn):
+    """Yield / yield from at the function's own level (nested defs and lambdas excluded)."""
+    got = getattr(fn, '_is_gen', None)
+    if got is None:
+        got = False
+        stack = list(fn.node.body)
+        while stack:
+            n = stack.pop()
+            if isinstance(n, (ast.FunctionDef, ast.AsyncFunctionDef, ast.Lambda, ast.ClassDef)):
+                continue
+            if isinstance(n, (ast.Yield, ast.YieldFrom)):
+                got = True
+                break
+            stack.extend(ast.iter_child_nodes(n))
+        try:
+            fn._is_gen = got
+        except AttributeError:
+            pass
+    return got
+
+
+@dataclass(frozen=True)
 class Inst:
     """An immutable instance of a repo value class (NamedTuple / dataclass): its fields."""
     cls: object = field(compare=False)     # ClassInfo
@@ -300,6 +333,9 @@ EXC_PARENTS = {
     'OverflowError': ['ArithmeticError'], 'InvalidVersion': ['ValueError'],
     'packaging.version.InvalidVersion': ['ValueError'],
     'Exception': ['BaseException'], 'BaseException': [],
+    'GeneratorExit': ['BaseException'], 'KeyboardInterrupt': ['BaseException'],
+    'SystemExit': ['BaseException'], 'StopIteration': ['Exception'],
+    'AssertionError': ['Exception'], 'NotImplementedError': ['RuntimeError'],
 }
 EXC_ALIASES = {'OSError': 'OSError', 'IOError': 'OSError', 'EnvironmentError': 'OSError',
                'serial.serialutil.SerialException': 'serial.SerialException',
@@ -405,6 +441,8 @@ def is_constant_value(v, depth=0):
         return True
     if isinstance(v, Closure):
         return not v.captured or all(is_constant_value(x, depth + 1) for _, x in v.captured)
+    if isinstance(v, GenV):
+        return False
     if isinstance(v, Inst):
         return all(is_constant_value(x, depth + 1) for _, x in v.fields)
     if isinstance(v, EnumV):
@@ -454,6 +492,8 @@ def class_attr_is_constant_table(cls, attr, expr):
 # *mismatch* found downstream is not evidence of a defect: the driver downgrades violations of a
 # run that recorded gaps to "cannot conclude".
 GAP_EVENTS = []
+GENERATOR_RUNS = [0]      # how many generator bodies were interpreted (checks that read loop shapes
+                          # consult it: a loop split between a generator and its consumer has none)
 
 
 def note_gap(kind, what, where):
@@ -565,7 +605,17 @@ class Interp:
 
     # ------------------------------------------------------------------ function calls
     def call_function(self, fn, args, kwargs, st, self_obj=None, closure_env=None,
-                      closure_defaults=None):
+                      closure_defaults=None, run_generator=False):
+        if not run_generator and not isinstance(fn, ModuleFrame) and is_generator_function(fn):
+            yield GenV(fn, fn.qualname, tuple(args), tuple(sorted(kwargs.items())), self_obj,
+                       (tuple(sorted((closure_env or {}).items())),
+                        tuple(sorted((closure_defaults or {}).items())))), st
+            return
+        yield from self._call_function(fn, args, kwargs, st, self_obj, closure_env,
+                                       closure_defaults)
+
+    def _call_function(self, fn, args, kwargs, st, self_obj=None, closure_env=None,
+                       closure_defaults=None):
         params = fn.params
         env = dict(closure_env or {})
         pos = list(params)
@@ -970,6 +1020,21 @@ class Interp:
         for it, s in self.ev(node.iter, st):
             if s.raised:
                 yield from self._raise_or(s, None)
+                continue
+            if isinstance(it, GenV):
+                n_eff = len(s.effects)
+                for items, s1 in self.run_generator(it, s, node):
+                    if items is None:
+                        yield from self._raise_or(s1, None)
+                        continue
+                    if len(s1.effects) != n_eff:
+                        # the generator's own effects would interleave with the loop body's
+                        raise Unsupported('for-loop over a generator with side effects at %s'
+                                          % self.cur.loc(node))
+                    if len(items) <= getattr(self.hooks, 'unroll_cap', 64):
+                        yield from self.unroll_for(node, items, 0, s1)
+                    else:
+                        yield from self.loop_havoc(node, s1, iter_value=it)
                 continue
             items = self.literal_items(it)
             if items is not None and len(items) <= getattr(self.hooks, 'unroll_cap', 64):
@@ -1678,6 +1743,86 @@ class Interp:
             return
         yield Opaque('comp@%d' % node.lineno, (), 'dict'), st
 
+    # ------------------------------------------------------------------ generators
+    GEN_KEY = ('<generator>', 'yielded')
+
+    def ev_Yield(self, node, st):
+        if not getattr(self, 'gen_modes', None):
+            raise Unsupported('yield outside a generator run at %s' % self.cur.loc(node))
+        vals = [(NONE, st)] if node.value is None else self.ev(node.value, st)
+        for v, s in vals:
+            if s.raised:
+                yield None, s
+                continue
+            got = s.fields.get(self.GEN_KEY, Tup((), 'list'))
+            s2 = s.setfield(self.GEN_KEY, Tup(got.items + (v,), 'list'))
+            if self.gen_modes[-1] == 'first':
+                # the consumer takes one item and drops the generator: nothing after the first
+                # yield runs (finally blocks of the generator do, as on close())
+                yield None, s2.raising('GeneratorExit')
+            else:
+                yield NONE, s2
+
+    def ev_YieldFrom(self, node, st):
+        if not getattr(self, 'gen_modes', None):
+            raise Unsupported('yield from outside a generator run at %s' % self.cur.loc(node))
+        for v, s in self.ev(node.value, st):
+            if s.raised:
+                yield None, s
+                continue
+            for items, s2 in self.items_of(v, s, node, first_only=self.gen_modes[-1] == 'first'):
+                if s2.raised:
+                    yield None, s2
+                    continue
+                got = s2.fields.get(self.GEN_KEY, Tup((), 'list'))
+                s3 = s2.setfield(self.GEN_KEY, Tup(got.items + tuple(items), 'list'))
+                if self.gen_modes[-1] == 'first' and items:
+                    yield None, s3.raising('GeneratorExit')
+                else:
+                    yield NONE, s3
+
+    def run_generator(self, g, st, node, first_only=False):
+        """Interpret the body of generator g.  Yields (items, state): every item in order, or -
+        with first_only - the list holding just the first item (empty if there is none)."""
+        if not hasattr(self, 'gen_modes'):
+            self.gen_modes = []
+        GENERATOR_RUNS[0] += 1
+        if g.fn in self.stack or len(self.stack) > 24:
+            raise Unsupported('recursive generator %s' % g.qual)
+        outer = st.fields.get(self.GEN_KEY)
+        s0 = st.copy()
+        s0.fields.pop(self.GEN_KEY, None)
+        n_eff = len(st.effects)
+        self.gen_modes.append('first' if first_only else 'all')
+        try:
+            cenv, cdef = (dict(g.closure[0]), dict(g.closure[1])) if g.closure else (None, None)
+            results = list(self._call_function(g.fn, list(g.args), dict(g.kwargs), s0, g.self_obj,
+                                               cenv, cdef))
+        finally:
+            self.gen_modes.pop()
+        for _ret, s in results:
+            items = list(s.fields.get(self.GEN_KEY, Tup((), 'list')).items)
+            s2 = s.copy()
+            s2.fields.pop(self.GEN_KEY, None)
+            if outer is not None:
+                s2.fields[self.GEN_KEY] = outer
+            if s2.raised == 'GeneratorExit' and first_only and items:
+                s2.raised = None
+                yield items[:1], s2
+            elif s2.raised:
+                yield None, s2
+            else:
+                yield (items[:1] if first_only else items), s2
+
+    def items_of(self, v, st, node, first_only=False):
+        """Items of an iterable value as (list, state) pairs: literal sequences directly,
+        generator objects by interpreting their body; (None, state) if not known."""
+        if isinstance(v, GenV):
+            yield from self.run_generator(v, st, node, first_only)
+            return
+        lit = self.literal_items(v)
+        yield (lit[:1] if (first_only and lit is not None) else lit), st
+
     def ev_NamedExpr(self, node, st):
         for v, s in self.ev(node.value, st):
             if s.raised:
@@ -1713,8 +1858,6 @@ class Interp:
                 if isinstance(n, ast.Name) and isinstance(n.ctx, ast.Load) and n.id not in params \
                         and n.id in st.env and n.id not in free:
                     free.append(n.id)
-        if any(isinstance(n, (ast.Yield, ast.YieldFrom)) for b in body_nodes for n in ast.walk(b)):
-            raise Unsupported('generator closure at %s' % self.cur.loc(node))
         fn = FuncInfo(self.cur.module, None, fdef)
         fn.qualname = '%s.<%s>' % (self.cur.qualname, label)
         dvals = []
@@ -2107,7 +2250,41 @@ class Interp:
             raise Unsupported('**kwargs call with an unknown mapping at %s' % self.cur.loc(node))
         return kwargs
 
+    def lazy_genexp(self, node, st):
+        """A generator expression as a generator object (its loops and tests run only as far as
+        the consumer asks): used where laziness matters, i.e. under next()."""
+        body = ast.Expr(value=ast.Yield(value=node.elt))
+        for gen in reversed(node.generators):
+            for test in reversed(gen.ifs):
+                body = ast.If(test=test, body=[body], orelse=[])
+            body = ast.For(target=gen.target, iter=gen.iter, body=[body], orelse=[],
+                           type_comment=None)
+        fdef = ast.FunctionDef(name='<genexpr@%d>' % node.lineno,
+                               args=ast.arguments(posonlyargs=[], args=[], vararg=None,
+                                                  kwonlyargs=[], kw_defaults=[], kwarg=None,
+                                                  defaults=[]),
+                               body=[body], decorator_list=[], returns=None, type_comment=None)
+        ast.copy_location(fdef, node)
+        for n in ast.walk(fdef):
+            if not hasattr(n, 'lineno'):
+                ast.copy_location(n, node)
+        ast.fix_missing_locations(fdef)
+        clo = self.make_closure(fdef, 'genexpr@%d' % node.lineno, st)
+        return GenV(clo.fn, clo.fn.qualname, (), (), None,
+                    (tuple(sorted(clo.captured)), ()))
+
     def ev_Call(self, node, st):
+        if isinstance(node.func, ast.Name) and node.func.id == 'next' and node.args and \
+                isinstance(node.args[0], ast.GeneratorExp) and 'next' not in st.env and \
+                not node.keywords and len(node.args) <= 2:
+            g = self.lazy_genexp(node.args[0], st)
+            for rest, s in self.ev_seq(list(node.args[1:]), st):
+                if s.raised:
+                    yield None, s
+                    continue
+                yield from self._call_with_generators(ExtRef('builtins.next'), [g] + list(rest),
+                                                      {}, s, node)
+            return
         if any(isinstance(a, ast.Starred) for a in node.args):
             yield from self._ev_call_starred(node, st)
             return
@@ -2376,6 +2553,17 @@ class Interp:
                     return
                 yield from self.call_function(m, args, kwargs, st, f.obj)
                 return
+        if isinstance(f, ExtRef) and any(isinstance(a, GenV) for a in args):
+            yield from self._call_with_generators(f, args, kwargs, st, node)
+            return
+        if isinstance(f, Bound) and f.name == 'join' and len(args) == 1 and \
+                isinstance(args[0], GenV):
+            for items, s1 in self.run_generator(args[0], st, node):
+                if items is None:
+                    yield None, s1
+                else:
+                    yield from self.do_call(f, [Tup(tuple(items), 'list')], kwargs, s1, node)
+            return
         if isinstance(f, ExtRef):
             r = self.call_ext(f.dotted, args, kwargs, st, node)
             if r is not None:
@@ -2416,6 +2604,43 @@ class Interp:
             note_gap('library', f.dotted, self.cur.loc(node))
         yield Opaque('call:' + describe(f), tuple(args)), st.effect(
             Effect('call', f, tuple(args), node.lineno, self.cur.qualname))
+
+    def _call_with_generators(self, f, args, kwargs, st, node):
+        """A library call with generator-object arguments: next() takes the first item only,
+        everything else consumes the generator completely (short-circuiting consumers only when
+        the generator has no side effects)."""
+        name = f.dotted[9:] if f.dotted.startswith('builtins.') else f.dotted
+        if name == 'next' and isinstance(args[0], GenV) and len(args) in (1, 2):
+            for items, s1 in self.run_generator(args[0], st, node, first_only=True):
+                if items is None:
+                    yield None, s1
+                elif items:
+                    yield items[0], s1
+                elif len(args) == 2:
+                    yield args[1], s1
+                else:
+                    yield None, s1.raising('StopIteration')
+            return
+
+        def rec(k, acc, s):
+            if k == len(args):
+                yield from self.do_call(f, acc, kwargs, s, node)
+                return
+            a = args[k]
+            if not isinstance(a, GenV):
+                yield from rec(k + 1, acc + [a], s)
+                return
+            n_eff = len(s.effects)
+            for items, s1 in self.run_generator(a, s, node):
+                if items is None:
+                    yield None, s1
+                    continue
+                if name in ('any', 'all', 'itertools.takewhile', 'itertools.islice', 'zip') \
+                        and len(s1.effects) != n_eff:
+                    raise Unsupported('%s() over a generator with side effects at %s'
+                                      % (name, self.cur.loc(node)))
+                yield from rec(k + 1, acc + [Tup(tuple(items), 'list')], s1)
+        yield from rec(0, [], st)
 
     # ------------------------------------------------------------------ decorators
     PLAIN_DECORATORS = {'property', 'staticmethod', 'classmethod', 'wraps', 'abstractmethod',
@@ -2632,6 +2857,15 @@ class Interp:
             return [(mk_func('ROUND', args[0] * scale) / scale, st)]
         if name in ('max', 'min') and len(args) >= 2 and all(isinstance(a, Sym) for a in args):
             return [(mk_func(name.upper(), *args), st)]
+        if name in ('max', 'min') and len(args) == 1 and set(kwargs) <= {'default'} and \
+                self.literal_items(args[0]) is not None:
+            items = [num_of(x) for x in self.literal_items(args[0])]
+            if not items:
+                if 'default' in kwargs:
+                    return [(kwargs['default'], st)]
+                return [(None, st.raising('ValueError'))]
+            if all(isinstance(x, Sym) for x in items):
+                return [(mk_func(name.upper(), *items) if len(items) > 1 else items[0], st)]
         if name in ('max', 'min'):
             return [(Opaque(name, tuple(args), 'num'), st)]
         if name == 'len' and len(args) == 1:
@@ -2695,6 +2929,32 @@ class Interp:
             return [(Tup(tuple(Tup(tuple(xs)) for xs in zip(*[a.items for a in args])), 'list'), st)]
         if name == 'reversed' and len(args) == 1 and isinstance(args[0], Tup):
             return [(Tup(tuple(reversed(args[0].items)), 'list'), st)]
+        if name.startswith('operator.') and len(args) == 2 and not kwargs:
+            ops = {'add': ast.Add, 'sub': ast.Sub, 'mul': ast.Mult, 'truediv': ast.Div,
+                   'floordiv': ast.FloorDiv, 'mod': ast.Mod, 'pow': ast.Pow, 'and_': ast.BitAnd,
+                   'or_': ast.BitOr, 'xor': ast.BitXor, 'lshift': ast.LShift,
+                   'rshift': ast.RShift}
+            cmps = {'lt': ast.Lt, 'le': ast.LtE, 'gt': ast.Gt, 'ge': ast.GtE, 'eq': ast.Eq,
+                    'ne': ast.NotEq, 'is_': ast.Is, 'is_not': ast.IsNot, 'contains': None}
+            short = name[9:]
+            if short in ops:
+                return self.binop(ops[short](), num_of(args[0]), num_of(args[1]), st, node)
+            if short == 'contains':
+                return [(In(args[1], args[0]), st)]
+            if short in cmps:
+                return [(self.compare(cmps[short](), args[0], args[1]), st)]
+            if short == 'getitem':
+                return [(self.item_of(args[0], args[1]), st)]
+        if name.startswith('operator.') and len(args) == 1 and not kwargs:
+            short = name[9:]
+            if short == 'neg' and isinstance(num_of(args[0]), Sym):
+                return [(-num_of(args[0]), st)]
+            if short == 'abs' and isinstance(num_of(args[0]), Sym):
+                return [(mk_func('ABS', num_of(args[0])), st)]
+            if short == 'not_':
+                return [(neg(to_cond(args[0])), st)]
+            if short == 'truth':
+                return [(to_cond(args[0]), st)]
         if name == 'getattr' and len(args) in (2, 3) and isinstance(args[1], Str) and \
                 args[1].is_lit() and args[1].text().isidentifier():
             if len(args) == 2 or isinstance(args[0], (Inst, EnumV, ObjRef, ClassRef, PkgMod)):
@@ -2784,7 +3044,9 @@ class Interp:
                     return [(Tup((lo, items[0] + items[1] + items[2] - lo - hi, hi), 'list'), st)]
             if all(isinstance(x, Str) and x.is_lit() for x in items):
                 return [(Tup(tuple(sorted(items, key=lambda x: x.text())), 'list'), st)]
-        if name in ('enumerate', 'reversed', 'zip', 'map', 'sorted', 'isinstance'):
+        if name in ('enumerate', 'reversed', 'zip', 'map', 'sorted'):
+            return [(Opaque(name, tuple(args)), st)]
+        if name == 'isinstance':
             return [(Opaque(name, tuple(args)), st)]
         if name in ('packaging.version.parse',) and len(args) == 1:
             return [(Opaque('parse', tuple(args), 'version'), st)]
@@ -2967,6 +3229,8 @@ def describe(f):
         return f.label
     if isinstance(f, Sym):
         return repr(f)
+    if isinstance(f, GenV):
+        return 'generator:' + f.qual
     if isinstance(f, Inst):
         return 'inst:' + f.qual
     if isinstance(f, EnumV):
